@@ -360,6 +360,84 @@ func checkC08(w *World) {
 	w.literalDelimiters(P, f, r)
 	w.numberForms(P, f)
 	w.ncNameStart(P)
+	w.buildExprVerbatim(P)
+}
+
+// buildExprVerbatim (R08.10): what is compiled is the caller's text. The public BuildExpr/MustBuildExpr hand their
+// string parameter itself to the builder of package grammar and return what that call returned: a normalised copy
+// (collapsed white space changes string literals), a truncated copy or a value looked up elsewhere (a cache keyed by
+// something coarser than the text) all make two different expressions evaluate alike.
+func (w *World) buildExprVerbatim(P string) {
+	docRule(P, "R08.10", "F", "the public BuildExpr and MustBuildExpr pass their own string parameter, unchanged, to the builder of package grammar (or to one another), and every Grammar they return derives from the result of that call in the same activation and from nothing else (no package-level variable, no map or cache lookup): the compiled query is the tree of exactly the text the caller gave.")
+	for _, name := range []string{"BuildExpr", "MustBuildExpr"} {
+		fn := w.member("", name)
+		if fn == nil || len(fn.Params) != 1 {
+			w.undecided(P, "R08.10", "xsel."+name, 0, "public function not found")
+			continue
+		}
+		var builds []*ssa.Call
+		argOK := true
+		allInstrs(fn, func(in ssa.Instruction) {
+			c, ok := in.(*ssa.Call)
+			if !ok {
+				return
+			}
+			sc := staticCallee(c)
+			if sc == nil || !inRepo(sc) {
+				return
+			}
+			isBuilder := fnPkgKey(sc) == "grammar" || (fnPkgKey(sc) == "" && (sc.Name() == "BuildExpr" || sc.Name() == "MustBuildExpr"))
+			if !isBuilder || len(c.Call.Args) == 0 || !isStringType(c.Call.Args[0].Type()) {
+				return
+			}
+			builds = append(builds, c)
+			if c.Call.Args[0] != ssa.Value(fn.Params[0]) {
+				argOK = false
+			}
+		})
+		retOK := len(builds) > 0
+		foreign := ""
+		allInstrs(fn, func(in ssa.Instruction) {
+			ret, ok := in.(*ssa.Return)
+			if !ok || len(ret.Results) == 0 {
+				return
+			}
+			v := ret.Results[0]
+			fromBuild := false
+			backSlice(v, func(x ssa.Value) bool {
+				switch y := x.(type) {
+				case *ssa.Call:
+					for _, b := range builds {
+						if y == b {
+							fromBuild = true
+							return false
+						}
+					}
+					if _, isB := y.Call.Value.(*ssa.Builtin); !isB {
+						foreign = "the returned value depends on " + calleeName(y)
+					}
+					return false
+				case *ssa.Global:
+					foreign = "the returned value depends on the package-level variable " + y.Name()
+					return false
+				case *ssa.Lookup:
+					foreign = "the returned value comes out of a map lookup"
+					return false
+				}
+				return true
+			})
+			// an error return hands back the zero Grammar: a constant or a zeroed local
+			if !fromBuild {
+				if len(ret.Results) == 2 && !isNilConst(ret.Results[1]) {
+					return
+				}
+				retOK = false
+			}
+		})
+		w.check(P, "R08.10", "xsel."+name+" compiles the caller's text", fn.Pos(), len(builds) > 0 && argOK && retOK && foreign == "",
+			fmt.Sprintf("builder calls: %d; each receives the parameter itself: %v; every successful return is the builder's result: %v%s", len(builds), argOK, retOK, map[bool]string{true: "; " + foreign, false: ""}[foreign != ""]))
+	}
+	w.floor(P, "R08.10", 2)
 }
 
 // numberForms (R08.8): XPath 1.0 [30] Number ::= Digits ('.' Digits?)? | '.' Digits. The production of the
